@@ -80,9 +80,12 @@ def poses(seed, g, cube=None):
     return out
 
 
+LOOKALIKE = {'C': 'Cl', 'O': 'Os', 'H': 'He', 'B': 'Br', 'N': 'Ni'}
+COLLINEAR = ['OCO', 'HCN', 'HCNy']
+BENT_DIR = {'OCO': np.array([0, 0.3, 0]), 'HCN': np.array([0, 0, 0.3]), 'HCNy': np.array([0.3, 0, 0])}
 PLACEMENTS = [tuple(p) for p in itertools.product([0.03, 0.5, 0.97], repeat=3)] + [(0.0, 0.0, 0.0), (0.0, 0.5, 0.5), (0.5, 0.0, 0.0), (0.0, 0.0, 0.5)]
 CORNERS = [tuple(p) for p in itertools.product([0.03, 0.97], repeat=3)]
-DECOYS = ['none', 'mirror', 'nearmiss', 'partial', 'distractors', 'second']
+DECOYS = ['none', 'mirror', 'nearmiss', 'partial', 'distractors', 'second', 'lookalike', 'bent']
 ATOLS = [0.05, 0.01, 0.2]
 
 
@@ -117,6 +120,14 @@ def build(cell, pname, rotM, fracpos, decoy='none', atol=0.05, noise=False, seed
             q = ctr + np.array(d) * (1.0 + 0.5 * np.abs(pp).max())
             if np.linalg.norm(P - q, axis=1).min() > max(0.6, 4.5 * atol):
                 pos.append(q[None, :]); el.append(pel[min(j, k - 1)])
+    elif decoy == 'lookalike' and pel[0] in LOOKALIKE:
+        # a copy whose first atom is another element with a look-alike symbol (C -> Cl): not an occurrence
+        pos.append((rotM @ pp.T).T + far @ cell); el += [LOOKALIKE[pel[0]]] + list(pel[1:])
+    elif decoy == 'bent' and pname in COLLINEAR:
+        # collinear triple with the middle atom pushed 0.3 A sideways: every pair distance still agrees within 0.05 A,
+        # but no rigid motion brings the atoms within the tolerance
+        q = pp.copy(); q[1] = q[1] + BENT_DIR[pname]
+        pos.append((rotM @ q.T).T + far @ cell); el += list(pel)
     elif decoy == 'second':
         pos.append((rotM.T @ pp.T).T + far @ cell); el += list(pel); planted.append(tuple(range(k, 2 * k)))
     for (rot2, frac2) in extra_copies:
